@@ -35,6 +35,7 @@ pub mod c10;
 pub mod c11;
 pub mod c13;
 pub mod c15;
+pub mod c16;
 pub mod c17;
 pub mod c18;
 pub mod c20;
@@ -52,6 +53,7 @@ pub fn run(property: &str, tier: Tier, seed: u64) -> Option<MonOut> {
         "C11" => Some(c11::run(tier, seed)),
         "C13" => Some(c13::run(tier, seed)),
         "C15" => Some(c15::run(tier, seed)),
+        "C16" => Some(c16::run(tier, seed)),
         "C17" => Some(c17::run(tier, seed)),
         "C18" => Some(c18::run(tier, seed)),
         "C20" => Some(c20::run(tier, seed)),
